@@ -604,17 +604,20 @@ func (c *ReverseExpandQuery) callCheckForCandidate(
 	info checkCandidateInfo,
 ) error {
 	info.resolutionMetadata.CheckCounter.Add(1)
-	handlerFunc := c.localCheckResolver.CheckRewrite(ctx,
-		&graph.ResolveCheckRequest{
-			StoreID:              info.req.StoreID,
-			AuthorizationModelID: c.typesystem.GetAuthorizationModelID(),
-			TupleKey:             tuple.NewTupleKey(tmpResult.Object, info.relation, info.req.User.String()),
-			ContextualTuples:     info.req.ContextualTuples,
-			Context:              info.req.Context,
-			Consistency:          info.req.Consistency,
-			RequestMetadata:      graph.NewCheckRequestMetadata(),
-		}, info.userset)
-	tmpCheckResult, err := handlerFunc(ctx)
+	// Built through the constructor, not as a struct literal: the constructor computes the request-invariant
+	// cache key (model, context, contextual tuples) under which dispatched sub-problems are cached.
+	checkReq, err := graph.NewResolveCheckRequest(graph.ResolveCheckRequestParams{
+		StoreID:              info.req.StoreID,
+		AuthorizationModelID: c.typesystem.GetAuthorizationModelID(),
+		TupleKey:             tuple.NewTupleKey(tmpResult.Object, info.relation, info.req.User.String()),
+		ContextualTuples:     info.req.ContextualTuples,
+		Context:              info.req.Context,
+		Consistency:          info.req.Consistency,
+	})
+	var tmpCheckResult *graph.ResolveCheckResponse
+	if err == nil {
+		tmpCheckResult, err = c.localCheckResolver.CheckRewrite(ctx, checkReq, info.userset)(ctx)
+	}
 	if err != nil {
 		operation := "intersection"
 		if !info.isAllowed {
